@@ -179,7 +179,7 @@ def run(F, R, tier):
             for x in walk(a["r"]):
                 if callee_matches(x, ["Locker::get_remote_checksum"]):
                     key = peel_value(x["args"][0])
-                    ins = [m for m in lp["_nodes"] if m.get("k") == "MethodCall" and m.get("fn") == "std::collections::BTreeMap::insert" and peel(m["recv"]).get("field") == "module_slots"]
+                    ins = [m for m in lp["_nodes"] if m.get("k") == "MethodCall" and m.get("fn") == "std::collections::BTreeMap::insert" and field_of(m["recv"]) == "module_slots"]
                     same = any(peel_value(m["args"][0]).get("lid") == key.get("lid") for m in ins)
                     R.ob("C05-b", "lockfile lookup keyed by the specifier whose slot is being loaded", same and key.get("res") == "local",
                          "get_remote_checksum is keyed by `%s`, not by the specifier inserted into module_slots" % expr_text(key), where(x))
@@ -273,7 +273,7 @@ def run(F, R, tier):
             R.violation("C05-e", "Redirect constructed in %s" % r["_top"]["path"], "redirect response constructed outside try_load::handle_redirect (no checksum / in-package checks there)", where(r))
             continue
         g = guards_at(F, r)
-        no_vi = any(x.kind == "cond" and not x.pol and x.node.get("fn") == "std::option::Option::is_some" and tyc(F, x.node.get("recv"), "graph::JsrPackageVersionInfoExt") for x in g)
+        no_vi = any(x.kind == "cond" and x.pol and x.node.get("fn") == "std::option::Option::is_none" and tyc(F, x.node.get("recv"), "graph::JsrPackageVersionInfoExt") for x in g)
         no_ck = any(x.kind == "pat" and not x.pol and pat_text(x.pat).startswith("std::option::Option::Some(") and tyc(F, x.scrut, "source::LoaderChecksum") for x in g)
         R.ob("C05-e", "redirect only when the URL is not inside a registry package", no_vi, "Redirect response not dominated by `!maybe_version_info.is_some()`", where(r))
         R.ob("C05-e", "redirect only when no checksum is known", no_ck, "Redirect response not dominated by the failure of `let Some(_) = maybe_checksum`: a checksummed URL could redirect", where(r))
@@ -318,7 +318,7 @@ def run(F, R, tier):
             ok = False
             why = expr_text(body)
             ins = [x for x in walk(body) if x.get("k") == "MethodCall" and x.get("fn") == "std::collections::BTreeMap::insert"
-                   and peel(x["recv"]).get("field") == "module_slots" and any(ctor_of(y) == "graph::ModuleSlot::Err" for y in walk(x))]
+                   and field_of(x["recv"]) == "module_slots" and any(ctor_of(y) == "graph::ModuleSlot::Err" for y in walk(x))]
             if ins and not any(ctor_of(y) == "graph::ModuleSlot::Module" for y in walk(body)):
                 ok = True  # the specifier is settled as an error entry
             for v in vals:
@@ -462,7 +462,7 @@ def run(F, R, tier):
     ok = len(g_) == 1 and peel_value(g_[0]["args"][0]).get("lid") == cs["body"]["params"][1].get("lid") and len(cmpn) == 1 and len(oks) == 1 and len(errs) == 1
     if ok:
         gg = guards_at(F, oks[0])
-        ok = any(x.kind == "cond" and x.node is cmpn[0] and x.pol == (cmpn[0]["op"] == "==") for x in gg)
+        ok = any(x.kind == "cond" and x.holds(cmpn[0]) == (cmpn[0]["op"] == "==") for x in gg)
         sides = [peel_value(cmpn[0]["l"]), peel_value(cmpn[0]["r"])]
         ok = ok and any(any(y is g_[0] or is_within(g_[0], y) for y in through_locals(sd)) for sd in sides) and any(sd.get("k") == "Field" and sd["field"] == "0" for sd in sides)
     R.ob("C05-g", "check_source accepts exactly when the stored checksum equals the hash of the given bytes", ok, "check_source no longer compares self.0 with gen(source) / Ok and Err edges changed", cs["file"])
